@@ -804,6 +804,10 @@ func main() {
 			"(with the cache every command of the first build is retrieved - the action log must still show it once -, without it runs again). " +
 			"Then an oracle-only stress: two filegroups of one package with the same source DIRECTORY (400/1500 files) over a stale output directory, their " +
 			"readers built by two processes started a random fraction of the single-process replace time apart, last trial = control with the same filegroup. " +
+			"Critical-section streams (oracle + model case CaseCrit; crit.go): slow-collect = one genrule whose outputs take long to hash and move (a 1 GiB sparse file / a directory of 4 sparse " +
+			"256 MiB files and 600 small ones), 2-3 invocations of it, the later ones started once the first holds the target lock and runs the command (they wait on the lock): all exit 0, outputs " +
+			"as expected, the command ran once; copied-filegroup = a filegroup with binary = True (copied) over a directory of 12000 files / 1500 single files / one 32 MiB file, 3 invocations from " +
+			"an empty plz-out, the later ones started when the first (at niceness 19) has populated 3-20 % of the output, or staggered by random fractions of a single build: all exit 0, output tree = source tree. " +
 			"distinct = distinct (repository, requests); non-trivial = at least one command is in the closure of two or more of the concurrent invocations")
 		base := e2e.Scratch("c31")
 		defer os.RemoveAll(base)
